@@ -267,6 +267,7 @@ def fini_expression(
         ir.expr.globals = list(ctx.env.query_globals.values())
         ir.expr.params = params
         ir.expr.schema = ctx.env.schema
+        ir.expr.dml_exprs = ctx.env.dml_exprs
 
         return ir.expr
 
